@@ -320,7 +320,15 @@ func parseLegacy(b []byte, ppos *int, p *Parsed, o Opts) error {
 			blk--
 			continue
 		}
-		if o.LegacyLoose && uint64(w) == uint64(uint32(len(p.Content))) && len(b)-pos == 4 {
+		if o.LegacyLoose && uint64(w) == uint64(uint32(len(p.Content))) && len(b)-pos-4 < int(w) {
+			// Linux-kernel style trailer: total uncompressed size. What follows (fewer bytes than a
+			// block of that size would need) is not part of the stream.
+			add("legacy-trailer", 4, -1)
+			p.LegacyTrail = true
+			pos = len(b)
+			return nil
+		}
+		if false {
 			// Linux-kernel style trailer: total uncompressed size
 			add("legacy-trailer", 4, -1)
 			p.LegacyTrail = true
